@@ -123,6 +123,13 @@ def run(chk, facts, tier):
             why = 'the response indication is not requested exactly when the handler asks for it'
         ok = cfg and okr and oki
         chk.instance('accepted-write-always-answered', fn, 'handler call behind the CCCD test, result passed on, indicate() iff second', ok, why, node=h, key='binder')
+    # the service hands the written octets to the control point handler as they are (it is the handler's current_opcode_ that the response echoes)
+    for fn in [f for f in facts.functions if f.q == 'bluetoe::csc::details::implementation::csc_write_control_point' and f.kind in ('pattern', 'plain')][:1]:
+        cs = fn.body.calls('csc_write_control_point')
+        names = [p_['n'] for p_ in fn.params]
+        ok = len(cs) >= 1 and all(len(c.args()) >= 2 and is_name(c.args()[0], names[0]) and is_name(c.args()[1], names[1]) for c in cs) and all(ret_value(r) is not None and ret_value(r).is_call('csc_write_control_point') for r in fn.returns())
+        chk.instance('accepted-write-always-answered', fn, 'implementation::csc_write_control_point forwards (write_size, value) unchanged', ok,
+                     '' if ok else 'the control point handler is given another request than the client wrote: the response carries another opcode than the request', key='forward')
     for fn in variants(facts, CP + 'csc_write_control_point', chk):
         def on_node(ts, node):
             flag, rets = ts
